@@ -1843,8 +1843,10 @@ hwloc__xml_import_diff(hwloc__xml_import_state_t state,
     int ret;
 
     ret = state->global->find_child(state, &childstate, &tag);
-    if (ret < 0)
+    if (ret < 0) {
+      hwloc_topology_diff_destroy(firstdiff);
       return -1;
+    }
     if (!ret)
       break;
 
@@ -1853,8 +1855,10 @@ hwloc__xml_import_diff(hwloc__xml_import_state_t state,
     } else
       ret = -1;
 
-    if (ret < 0)
+    if (ret < 0) {
+      hwloc_topology_diff_destroy(firstdiff);
       return ret;
+    }
 
     state->global->close_child(&childstate);
   }
